@@ -18,7 +18,7 @@ CHECKS = {
     "C06": dict(
         level="model_checking",
         rule="full table method(8) x kind(2) x difference class(6) x child deleting(2) x still desired(2) x children(1-2) for composite and decorator; "
-             "non-trivial = the statement demands at least one write or an error for the case",
+             "non-trivial = the statement demands at least one write or an error for the case; x an undesired sibling of the same kind whose DELETE is refused (403): reported, and the other children are treated exactly as without it",
         units=[
             dict(pkg=COMPOSITE, test="TestVerifC06", shards=dict(quick=4, thorough=8), budget=dict(quick=300, thorough=900)),
             dict(pkg=DECORATOR, test="TestVerifC06", shards=dict(quick=4, thorough=8), budget=dict(quick=300, thorough=900)),
@@ -28,7 +28,7 @@ CHECKS = {
     "C03": dict(
         level="model_checking",
         rule="parent scope(2) x declared child kinds(3 sets per scope) x generateSelector(2) x 2 (thorough: 3) slots each ranging over role(9 composite / 8 decorator) x namespace(2) x kind(declared + one undeclared); "
-             "one real sync per case; non-trivial = at least one object present in the cluster; every fifth non-trivial case is also run after a second controller on the same parent and child resources was started and stopped again (the informers this controller lists from must survive)",
+             "one real sync per case; non-trivial = at least one object present in the cluster; every fifth non-trivial case is also run after a second controller on the same parent and child resources was started and stopped again (the informers this controller lists from must survive); role 'orphan in the cache, adopted by another parent on the server' (the adoption is refused; the object must never be shown to the hook)",
         units=[
             dict(pkg=COMPOSITE, test="TestVerifC03", shards=dict(quick=8, thorough=16), budget=dict(quick=300, thorough=1500)),
             dict(pkg=DECORATOR, test="TestVerifC03", shards=dict(quick=4, thorough=16), budget=dict(quick=300, thorough=1500)),
@@ -47,7 +47,7 @@ CHECKS = {
     "C14": dict(
         level="model_checking",
         rule="configuration (parent scope x generateSelector x ignoreStatusChanges x controller selector) x every event shape: parent add/delete/tombstone/6 update kinds/resync for matching, non-matching and finalizer-carrying parents; child add/update/delete/tombstone/resync for 15 roles (incl. a controller reference naming the parent kind in another API version); parents incl. one that carries the finalizer plus a garbage-collector finalizer while being deleted; with and without a finalize hook; related-object events (8); "
-             "each case = fresh world with the real Start()-installed handlers, one delivered event, queue compared with the decision table",
+             "each case = fresh world with the real Start()-installed handlers, one delivered event, queue compared with the decision table; in the related-object cases the customize hook answers 503 for two other parents that were never synced",
         units=[
             dict(pkg=COMPOSITE, test="TestVerifC14", shards=dict(quick=4, thorough=4), budget=dict(quick=300, thorough=600)),
             dict(pkg=DECORATOR, test="TestVerifC14", shards=dict(quick=4, thorough=4), budget=dict(quick=300, thorough=600)),
@@ -90,7 +90,7 @@ CHECKS = {
         level="model_checking",
         rule="parent scope(2) x all rule sets of 1 and 2 rules over resource(2: namespaced, cluster-scoped) x selection(10: none, empty selector, matchLabels, matchExpressions, namespace own/foreign, names, namespace+names, two invalid mixes) = 840 sets, against 7 related objects across two namespaces and cluster scope, each also with a second hosted controller (own customize hook, other rules) looking at the same parent first, for composite and decorator controllers; "
              "a related object that changes while no customize answer is remembered for the parent's new generation must still wake the parent; "
-             "each case: sync, cached re-sync, a change of every related object, a parent generation change, finalize",
+             "each case: sync, cached re-sync, a change of every related object, a parent generation change, finalize; the wake-up agreement is re-checked with two more parents around for which the customize hook fails",
         units=[
             dict(pkg=COMPOSITE, test="TestVerifC15", shards=dict(quick=4, thorough=8), budget=dict(quick=300, thorough=600)),
             dict(pkg=DECORATOR, test="TestVerifC15", shards=dict(quick=4, thorough=8), budget=dict(quick=300, thorough=600)),
@@ -123,7 +123,7 @@ CHECKS = {
     "C01": dict(
         level="model_checking",
         rule="configuration (parent scope x 1-2 child kinds x 6 update methods x generateSelector x finalize hook x dynamic/server-side apply) x hook program (static 0-2, fromSpec, ordered StatefulSet-like, echoStatus) x initial cluster contents (two desired-name slots over {absent, owned, owned drifted, owned+foreign field, matching orphan, drifted orphan} x stale owned child x foreign-owned look-alike x same name in the other namespace; cluster-scoped parents: every desired child also has a same-named twin in a second namespace; some desired children carry annotations of the hook's own, omit their namespace, or echo the generated selector label) "
-             "x stale-cache deviations (thorough: partial delivery in the first 0-2 rounds); each scenario is driven `sync; deliver; gc` to quiescence within N rounds, then one more sync; quick tier = a covering sub-product; plus an end-to-end explicit-state search over CHANGES of the desired state through the real sync (parent spec = value x replicas(1-2) x a child map {a,b}/{a}/{}/absent x a list-map two/one/no items x desired child with/without a status key [x hook annotation x extra label in the thorough tier]; events: every single-field change from every reachable spec - alone, together with a sync hook that answers 500 once, and together with one refused child write -, child deleted / orphaned / drifted; hook style: builds children from scratch / returns the observed annotations / returns the observed metadata and status; InPlace, Recreate, OnDelete under dynamic apply and server-side apply, composite children and decorator attachments): after every event the controller is synced to quiescence under a fair environment and the store must equal the store of a fresh world started directly with the same spec (differential oracle); the search closes (fixpoint), so change sequences of any length are covered; plus rollout histories with the replica count outside the revisioned fields (revisionHistory.fieldPaths=[spec.template], hook listing the highest ordinal first; RollingRecreate / RollingInPlace; events sync, template / replicas / common change, child deleted; depth 6 (8), at most 2 (3) changes): from every reached state a fair continuation ends in the cluster a fresh start with the same spec converges to",
+             "x stale-cache deviations (thorough: partial delivery in the first 0-2 rounds); each scenario is driven `sync; deliver; gc` to quiescence within N rounds, then one more sync; quick tier = a covering sub-product; plus an end-to-end explicit-state search over CHANGES of the desired state through the real sync (parent spec = value x replicas(1-2) x a child map {a,b}/{a}/{}/absent x a list-map two/one/no items x desired child with/without a status key [x hook annotation x extra label in the thorough tier]; events: every single-field change from every reachable spec - alone, together with a sync hook that answers 500 once, and together with one refused child write -, child deleted / orphaned / drifted; hook style: builds children from scratch / returns the observed annotations / returns the observed metadata and status; InPlace, Recreate, OnDelete under dynamic apply and server-side apply, composite children and decorator attachments): after every event the controller is synced to quiescence under a fair environment and the store must equal the store of a fresh world started directly with the same spec (differential oracle); the search closes (fixpoint), so change sequences of any length are covered; plus rollout histories with the replica count outside the revisioned fields (revisionHistory.fieldPaths=[spec.template], hook listing the highest ordinal first; RollingRecreate / RollingInPlace; events sync, template / replicas / common change, child deleted; depth 6 (8), at most 2 (3) changes): from every reached state a fair continuation ends in the cluster a fresh start with the same spec converges to; every change of the history search also with one child write refused once with 422; a refused write or a failed hook must make the sync report an error",
         units=[
             dict(pkg=COMPOSITE, test="TestVerifC01", shards=dict(quick=12, thorough=16), budget=dict(quick=600, thorough=3300)),
             dict(pkg=DECORATOR, test="TestVerifC01", shards=dict(quick=4, thorough=16), budget=dict(quick=600, thorough=3300)),
@@ -136,7 +136,7 @@ CHECKS = {
     "C08": dict(
         level="model_checking",
         rule="all fair rollouts: children n=1..3 (thorough 4) x parent/child scope (namespaced/namespaced, cluster/namespaced, cluster/cluster) x RollingInPlace/RollingRecreate x status checks on/off x generateSelector on/off x the sync index (-1..3n+4) at which a second spec change arrives; "
-             "fair environment after every sync (caches delivered, GC, every child healthy and observed); completion within 2n+6 / 3n+6 syncs; first change template or template+scale-down, second change template / scale-down / scale-up, Updated=True, exactly one ControllerRevision; never 'missing child' for a cached child; plus two rolling child kinds whose children share names (n=1..2, thorough 3), the second kind dropped / brought back by a revisioned field before or during a template rollout (first change tpl / tpl+drop / drop, second change tpl / drop / tpl+drop / add / scale-down at every sync index)",
+             "fair environment after every sync (caches delivered, GC, every child healthy and observed); completion within 2n+6 / 3n+6 syncs; first change template or template+scale-down, second change template / scale-down / scale-up, Updated=True, exactly one ControllerRevision; never 'missing child' for a cached child; plus two rolling child kinds whose children share names (n=1..2, thorough 3), the second kind dropped / brought back by a revisioned field before or during a template rollout (first change tpl / tpl+drop / drop, second change tpl / drop / tpl+drop / add / scale-down at every sync index); the history search also fires syncs whose first / second ControllerRevision write is refused (500)",
         units=[
             dict(pkg=COMPOSITE, test="TestVerifC08", shards=dict(quick=8, thorough=16), budget=dict(quick=300, thorough=1200)),
             dict(pkg=COMPOSITE, test="TestVerifC08Hist", shards=dict(quick=8, thorough=16), budget=dict(quick=600, thorough=3000)),
@@ -155,7 +155,7 @@ CHECKS = {
     "C09": dict(
         level="fault_enumeration",
         rule="for every fair rollout scenario (n=1..2 children, thorough 3; RollingInPlace/RollingRecreate; generateSelector on/off; optional second template change at sync k) and every sync of it: (a) every crash cut = each prefix of the non-child requests, then every subset of the child writes (sync unwound, controller rebuilt, caches refilled from the store); "
-             "(b) each of 409, 500, timeout (not applied), lost response (applied) on every single request; then the fair continuation. A deviation is non-trivial and distinct by construction (sync index x request identity x kind / cut)",
+             "(b) each of 409, 500, timeout (not applied), lost response (applied) on every single request; then the fair continuation. A deviation is non-trivial and distinct by construction (sync index x request identity x kind / cut); invariant added: an existing desired child whose old revision still has a record is itself in some record",
         units=[
             dict(pkg=COMPOSITE, test="TestVerifC09", shards=dict(quick=16, thorough=16), budget=dict(quick=600, thorough=3300)),
         ],
@@ -165,7 +165,7 @@ CHECKS = {
     "C12": dict(
         level="fault_enumeration",
         rule="base scenarios: composite 'mixed' sync (finalizer add, adopt, release, delete undesired, in-place update, recreate, create, status write), composite 'rolling' (second move of a rollout: ControllerRevision writes + child update), decorator 'mixed' (finalizer, label/annotation/status writes, attachment create/update/recreate/delete); "
-             "every request of the sync x each of 404, 409, 410, 422, 500, timeout, lost response (singles exhaustively; thorough: all pairs of requests for 409/500/timeout), sticky per-child failures x 3 kinds, a failing child combined with a benign end of the status path, hook 500/503/429/refused/garbage, a 429 for only the old / only the latest revision's call of a rollout; real benign races (the environment really removes / edits the target just before each child get/update/delete: tolerated = the hook is still called, no error is reported, same final state); each through the real processNextWorkItem, then fault-free to quiescence; plus the mixed scenario with an ETag-enabled hook behind request-derived ETag middleware (tag on every answer incl. error pages, 304 on If-None-Match), hook error pages with JSON bodies; quiescence after the fault requires an error-free sync",
+             "every request of the sync x each of 404, 409, 410, 422, 500, timeout, lost response (singles exhaustively; thorough: all pairs of requests for 409/500/timeout), sticky per-child failures x 3 kinds, a failing child combined with a benign end of the status path, hook 500/503/429/refused/garbage, a 429 for only the old / only the latest revision's call of a rollout; real benign races (the environment really removes / edits the target just before each child get/update/delete: tolerated = the hook is still called, no error is reported, same final state); each through the real processNextWorkItem, then fault-free to quiescence; plus the mixed scenario with an ETag-enabled hook behind request-derived ETag middleware (tag on every answer incl. error pages, 304 on If-None-Match), hook error pages with JSON bodies; quiescence after the fault requires an error-free sync; fault kinds 404, 409, 410, 422, 500, 403, 429, server timeout, transport timeout, lost response",
         units=[
             dict(pkg=COMPOSITE, test="TestVerifC12", shards=dict(quick=8, thorough=16), budget=dict(quick=300, thorough=1800)),
             dict(pkg=DECORATOR, test="TestVerifC12", shards=dict(quick=2, thorough=4), budget=dict(quick=300, thorough=900)),
@@ -176,7 +176,7 @@ CHECKS = {
     "C04": dict(
         level="model_checking",
         rule="part 1: selector form(6: matchLabels, In, NotIn, Exists, generated, empty) x object labels(3) x owner-reference list(6) x object deleting(2) x cached parent alive/deleting x live parent(4: same, deleting, replaced UID, gone) x children and ControllerRevisions x desired-child labels match/no-match (with selector generation: a foreign controller-uid label) x the live object's other owner references diverging from the cached ones (one added / one removed since observed: neither dropped nor resurrected), one real sync each; "
-             "part 2: two parents with the same selector adopt one orphan concurrently - all interleavings at API-request granularity with at most 2 preemptions (thorough: unbounded) under the cooperative scheduler",
+             "part 2: two parents with the same selector adopt one orphan concurrently - all interleavings at API-request granularity with at most 2 preemptions (thorough: unbounded) under the cooperative scheduler; plus the adoption re-check itself failing (500 / 429 / timeout on the uncached parent read) with a second candidate in the same claim pass",
         units=[
             dict(pkg=COMPOSITE, test="TestVerifC04", shards=dict(quick=4, thorough=8), budget=dict(quick=300, thorough=1800)),
         ],
@@ -185,7 +185,7 @@ CHECKS = {
     "C02": dict(
         level="model_checking",
         rule="part 1: a rich composite sync (create, in-place update, recreate, delete undesired, adopt, release; desired names occupied by a foreign-owned object and by a non-matching orphan; same-named look-alikes in the other namespace) under dynamic and server-side apply x every request boundary (0 = before the sync: stale cache) x environment action (delete, delete+recreate, foreign controller, clear owners, relabel) x target object(8), then a second sync on the partly stale caches (thorough: every PAIR of environment actions, ~410 000 cases, from a restored snapshot); bystanders include objects that list the parent as a plain, non-controller owner; the child to be created carries a hook-provided plain owner reference to the parent; "
-             "part 2: two parents with overlapping selectors syncing concurrently, all interleavings at API-request granularity with <= 2 (thorough 3) preemptions; part 3: the decorator counterpart (attachments controlled by the target AND carrying the decorator's marker; environment action 'other decorator's marker'); every store-changing request is judged against its logged pre-state; the acting parent's selector has a history (it also selected the bystander orphans' label while the children were first created and was narrowed before the judged sync)",
+             "part 2: two parents with overlapping selectors syncing concurrently, all interleavings at API-request granularity with <= 2 (thorough 3) preemptions; part 3: the decorator counterpart (attachments controlled by the target AND carrying the decorator's marker; environment action 'other decorator's marker'); every store-changing request is judged against its logged pre-state; the acting parent's selector has a history (it also selected the bystander orphans' label while the children were first created and was narrowed before the judged sync); boundaries are enumerated by position AND by request identity (every environment action on the target of a request just before that request, whatever its position in the run); actions include a non-matching namesake replacing the object",
         units=[
             dict(pkg=COMPOSITE, test="TestVerifC02", shards=dict(quick=8, thorough=16), budget=dict(quick=600, thorough=3000)),
             dict(pkg=DECORATOR, test="TestVerifC02", shards=dict(quick=4, thorough=8), budget=dict(quick=600, thorough=1800)),
@@ -196,7 +196,7 @@ CHECKS = {
         level="model_checking",
         rule="(a) rollout histories (bring-up, two template edits -> three live revisions, delete -> finalize) x revision field paths (default, spec.template, spec.template.ver) x customize x finalize x dynamic/server-side apply/dynamic with log verbosity 10 (code behind V(n).Enabled() guards) x a 500 injected at every single request position of the history: cache fingerprint (pointer + content) around every sync and 'the hook was sent what the server delivered'; "
              "(a2) the decorator counterpart: decorate, edit, unselect/delete with finalize x customize x InPlace/Recreate x log verbosity x a 500 at every request position; (b) two workers syncing distinct rolling parents that share every informer, the customize cache and the SSA memo: all interleavings at API-request/hook granularity with <= 2 (thorough 3) preemptions, outcome (store + hook-request multiset) must equal a serial order's; "
-             "(c) supplementary, outside the family: the same bodies free-running under the race detector (60 / 300 repetitions x 4 rounds x 3 concurrent syncs with parallel per-revision hook calls)",
+             "(c) supplementary, outside the family: the same bodies free-running under the race detector (60 / 300 repetitions x 4 rounds x 3 concurrent syncs with parallel per-revision hook calls); every request of the history (by request identity) also fails with 429, server timeout, transport timeout (thorough: 403)",
         units=[
             dict(pkg=COMPOSITE, test="TestVerifC17", shards=dict(quick=8, thorough=16), budget=dict(quick=600, thorough=1800)),
             dict(pkg=DECORATOR, test="TestVerifC17", shards=dict(quick=2, thorough=4), budget=dict(quick=600, thorough=1800)),
@@ -222,7 +222,7 @@ CHECKS = {
     "C20": dict(
         level="model_checking",
         rule="explicit-state BFS over sequences of CompositeController / DecoratorController events through the real Metacontroller.Reconcile: create, spec-changing update, no-op (metadata-only) update, delete, with 18 (decorator 16) spec variants = 2 plain + 8 valid optional-webhook-field variants (every ETag field set or unset, timeout zero/negative, strict, service+path) + 8 (6) configurations that cannot start; "
-             "one name with the full alphabet to depth 3 (thorough 4; the frontier empties = any number of further events), two names with a reduced alphabet to depth 3 (thorough 5, full alphabet 3); state = stored spec + running spec per name; after every event: instance set, specs, restart/no-op identity, stopped instances (queue shut, no handlers), factory refcounts, parent-event wake-up and hook isolation + a stop while the first sync is still waiting for the customize hook: subscriptions to related resources opened by that sync after Stop began must be released",
+             "one name with the full alphabet to depth 3 (thorough 4; the frontier empties = any number of further events), two names with a reduced alphabet to depth 3 (thorough 5, full alphabet 3); state = stored spec + running spec per name; after every event: instance set, specs, restart/no-op identity, stopped instances (queue shut, no handlers), factory refcounts, parent-event wake-up and hook isolation + a stop while the first sync is still waiting for the customize hook: subscriptions to related resources opened by that sync after Stop began must be released; plus: stop while a worker waits for the cache of a related resource whose LIST never succeeds (subscription must be released)",
         units=[
             dict(pkg=COMPOSITE, test="TestVerifC20", shards=dict(quick=8, thorough=16), budget=dict(quick=600, thorough=3000)),
             dict(pkg=DECORATOR, test="TestVerifC20", shards=dict(quick=8, thorough=16), budget=dict(quick=600, thorough=3000)),
